@@ -52,10 +52,24 @@ def block_cases(ctx, sp, rng):
     return cases, meta, bad
 
 
+def nudft_matrix(grid, coord):
+    """exact non-uniform DFT matrix: y_j = N^(-1/2) sum_n x_n exp(-2 pi i k_j.n/N), n measured from the centre index N//2"""
+    import itertools
+    idx = np.array(list(itertools.product(*[range(-(g // 2), g - (g // 2)) for g in grid])), dtype=float)
+    ph = np.zeros((coord.shape[0], idx.shape[0]))
+    for d, g in enumerate(grid):
+        ph += np.outer(coord[:, d], idx[:, d]) / g
+    return np.exp(-2j * np.pi * ph) / np.sqrt(np.prod(grid))
+
+
 def nufft_cases(ctx, sp, rng):
+    """A.N x against A.H(A x).  toeplitz=False: the same composition, to rounding.  toeplitz=True: "within the interpolation
+    accuracy of the NUFFT" is measured per case: e_A = error of A.H A x against the exact non-uniform Gram matrix applied to x,
+    and the Toeplitz operator has to stay within 8 e_A + 3e-5 of A.H A x (on 1500 clean cases over the same parameter range the
+    largest ratio was 3.4 wherever e_A > 1e-5, and the Toeplitz error has a floor of about 5e-6 below that)."""
     bad = {}
-    n = ctx.n(10, 120)
-    for _ in range(n):
+    n = ctx.n(14, 160)
+    for it in range(n):
         nd = rng.choice([1, 2, 2, 2, 3])
         while True:
             grid = [rng.randint(3, 10) for _ in range(nd)]
@@ -63,20 +77,39 @@ def nufft_cases(ctx, sp, rng):
                 break
         bat = [2] if rng.random() < 0.25 else []
         npts = rng.randint(8, 30)
-        coord = np.array([[rng.uniform(-g / 2, g / 2) for g in grid] for _ in range(npts)])
+        ckind = rng.choice(["uniform", "uniform", "grid", "half"])
+        if ckind == "uniform":
+            coord = np.array([[rng.uniform(-g / 2, g / 2) for g in grid] for _ in range(npts)])
+        else:
+            coord = np.array([[rng.randint(-(g // 2), g - (g // 2) - 1) + (0.5 if ckind == "half" else 0.0) for g in grid] for _ in range(npts)])
+        if it % 2 == 0:
+            kw = {}
+            pdesc = "default"
+        else:
+            kw = dict(oversamp=rng.choice([1.25, 1.5, 2]), width=rng.choice([3, 4, 5, 6, 8]))
+            pdesc = "os%s:w%s" % (kw["oversamp"], kw["width"])
         for toep in (False, True):
-            desc = {"grid": grid, "batch": bat, "npts": npts, "toeplitz": toep}
-            ctx.count("C04:nufft:%dD:toeplitz=%s:%s" % (nd, toep, "square" if len(set(grid)) == 1 else "non-square"),
+            desc = {"grid": grid, "batch": bat, "npts": npts, "toeplitz": toep, "coords": ckind, "params": kw}
+            ctx.count("C04:nufft:%dD:toeplitz=%s:%s:%s" % (nd, toep, "square" if len(set(grid)) == 1 else "non-square", "default" if not kw else "non-default"),
                       key=str(desc), sample=desc)
             try:
-                A = sp.linop.NUFFT(bat + grid, coord, toeplitz=toep)
+                A = sp.linop.NUFFT(bat + grid, coord, toeplitz=toep, **kw)
                 x = linop_common.cvec(rng, A.ishape)
                 w, w2 = np.asarray(A.N(x)), np.asarray(A.H(A(x)))
-                tol = 5e-2 if toep else 1e-6
                 err = np.linalg.norm(w - w2) / (np.linalg.norm(w2) + 1e-30)
+                if toep:
+                    E = nudft_matrix(grid, coord)
+                    G = E.conj().T @ E
+                    gx = (x.reshape([-1, int(np.prod(grid))]) @ G.T).reshape(x.shape)
+                    e_a = np.linalg.norm(w2 - gx) / (np.linalg.norm(gx) + 1e-30)
+                    tol = 8 * e_a + 3e-5
+                else:
+                    e_a, tol = None, 1e-6
                 if w.shape != w2.shape or err > tol:
-                    bad.setdefault("normal-nufft-toeplitz=%s" % toep, ("NUFFT(toeplitz=%s).N x differs from A.H(A x) (relative %.3g)" % (toep, err),
-                                                                         {"kind": "oracle", "case": desc, "coord": coord.tolist(), "rel_err": float(err)}))
+                    bad.setdefault("normal-nufft-toeplitz=%s" % toep, ("NUFFT(toeplitz=%s, %s).N x differs from A.H(A x) (relative %.3g, allowed %.3g)" % (toep, pdesc, err, tol),
+                                                                         {"kind": "oracle", "case": desc, "coord": coord.tolist(), "rel_err": float(err),
+                                                                          "nufft_accuracy_on_this_case": e_a, "allowed": tol,
+                                                                          "x": [[float(v.real), float(v.imag)] for v in np.ravel(x)]}))
             except Exception as e:
                 bad.setdefault("exception-nufft", ("NUFFT normal raised %r" % e, {"kind": "impl-exception", "case": desc, "error": repr(e)}))
     return bad
